@@ -4,7 +4,7 @@ from .. import core
 from .bodycommon import run_body
 
 PROOF = "Props/C03.v"
-RUN_FILES = ["Run/CodecRun.v", "Run/BodyRun.v"]
+RUN_FILES = ["Run/CodecRun.v", "Run/BodyRun.v", "Run/BytesRun.v"]
 CORR_NAME = "per-operator decode/encode tables vs. real round trip"
 ASSUMPTIONS = [
     "Gen/Ops.v (wop, plain, decode_plain, encode_plain, map_idx) is regenerated from src/ir/mod.rs, local_function/mod.rs (append_instruction, mem_arg) and local_function/emit.rs (visit_instr, memarg) by /verif/translator on every run; the translator is trusted but every generated arm is re-run against the real code by the per-operator enumerator of this check",
@@ -50,4 +50,10 @@ def correspondence(ctx, thorough, search):
     cov["evaluations"] += bc.get("evaluations", 0); cov["distinct_nontrivial"] += bc.get("distinct_nontrivial", 0)
     cov["traces_validated_against_impl"] += bc.get("traces_validated_against_impl", 0)
     cov["body_level"] = {k: bc.get(k) for k in ("rule", "input_distribution", "samples", "evaluations")}
+    # third correspondence: the BYTES of every body (Model/Bytes.v) against wasmparser's reading of inputs and of walrus's outputs
+    from .c11 import bytes_run
+    d3, c3 = bytes_run(ctx, thorough, search)
+    dis += d3
+    cov["body_bytes"] = c3
+    cov["traces_validated_against_impl"] += c3.get("evaluated_in_coq", 0)
     return {"disagreements": dis, "oracle_violations": ov, "coverage": cov}
